@@ -186,7 +186,7 @@ fn main() {
                     println!("MINI {idx}");
                 }
                 let (_, case) = runner::gen_case(&s, seed, tier, idx);
-                let out = (s.run)(&case, false);
+                let out = runner::run_case(s.run, &case, false);
                 for v in &out.violations {
                     println!("MINI-VIOLATION {idx} {}\n  {}", v.signature, v.detail.replace('\n', "\n  "));
                     bad += 1;
@@ -205,7 +205,7 @@ fn main() {
             let idx: u64 = args[2].parse().unwrap();
             let (seed, case) = runner::gen_case(&s, env_u64("VERIF_SEED", 1), Tier::Quick, idx);
             println!("seed={seed}\n{}", serde_json::to_string_pretty(&case).unwrap());
-            let out = (s.run)(&case, true);
+            let out = runner::run_case(s.run, &case, true);
             for v in &out.violations {
                 println!("violation {}: {}", v.signature, v.detail);
             }
@@ -324,7 +324,7 @@ fn cmd_check(prop: &str, tier: Tier, part: bool) -> i32 {
                     let wpath = root().join("known").join(format!("{}.json", sanitize(&k.signature)));
                     if !wpath.exists() {
                         let (min_case, _) = minimise::minimise(&f.case, &f.signature, s.run, 2000);
-                        let out = (s.run)(&min_case, true);
+                        let out = runner::run_case(s.run, &min_case, true);
                         write_json(&wpath, &json!({
                             "property": prop, "scenario": s.name, "profile": profile(), "signature": f.signature,
                             "case": min_case, "log_hash": format!("{:016x}", out.hash),
@@ -346,7 +346,7 @@ fn cmd_check(prop: &str, tier: Tier, part: bool) -> i32 {
             let path = out_root().join("replays").join(prop).join(format!("{}-{}-{}.json", sanitize(&f.signature), f.seed, profile()));
             let exe = std::env::current_exe().unwrap();
             let attempt = |case: &Case, spent: usize, note: &str| -> (bool, String) {
-                let out = (s.run)(case, true);
+                let out = runner::run_case(s.run, case, true);
                 let detail = out
                     .violations
                     .iter()
@@ -440,7 +440,7 @@ fn cmd_check(prop: &str, tier: Tier, part: bool) -> i32 {
                     } else {
                         match serde_json::from_value::<Case>(j["case"].clone()) {
                             Ok(case) => scenario_by_name(&case.scenario)
-                                .map(|s| (s.run)(&case, false).violations.iter().any(|v| v.signature == k.signature))
+                                .map(|s| runner::run_case(s.run, &case, false).violations.iter().any(|v| v.signature == k.signature))
                                 .unwrap_or(false),
                             Err(_) => false,
                         }
@@ -595,7 +595,7 @@ fn cmd_replay(path: &Path, verify: bool) -> i32 {
         return 2;
     };
     let sig = j["signature"].as_str().unwrap_or("").to_string();
-    let out = (s.run)(&case, true);
+    let out = runner::run_case(s.run, &case, true);
     let hash = format!("{:016x}", out.hash);
     let hit = out.violations.iter().find(|v| v.signature == sig);
     if verify {
